@@ -26,11 +26,12 @@ LEVEL = "exploration"
 RULE = (
     "case = (prefix, suffix, stop list, text, chunking set, chunk object type); all chunkings of the case run inside it on "
     "3 feeding paths (observed.chunkings / observed.runs are the real counts). Exhaustive part: for every configuration whose "
-    "prefix+suffix is <= 4 chars, ALL body strings over the configuration's collision alphabet (pattern characters + 'a') up to "
+    "prefix+suffix is <= 4 chars, ALL body strings over the configuration's 2-5 letter collision alphabet (pattern characters + a filler) up to "
     "the length bound, wrapped (prefix+body+suffix) and bare, each with ALL 2^(n-1) chunkings (n <= 8 quick / 10 thorough); "
-    "sampled part: seeded random texts to n=40 (incl. the production patterns `Bot message: \"`...`\"`, stop `\"\\n` / "
-    "`\\nUser intent: `) with all 2-chunk splits, the singleton and the one-chunk chunking and 40 (quick) / 200 (thorough) random "
-    "chunkings. non-trivial = a pattern is configured and at least one executed chunking with >= 2 chunks has a chunk boundary "
+    "sampled part: the 7 texts + chunkings of the repo's own streaming tests (n <= 51) and seeded random texts to n=40 (incl. "
+    "the production patterns `Bot message: \"`...`\"`, stop `\"\\n` / "
+    "`\\nUser intent: `) with ALL chunkings when n <= 8/10, else all 2-chunk splits, the singleton and the one-chunk chunking and 40 (quick) / "
+    "200 (thorough) random chunkings. non-trivial = a pattern is configured and at least one executed chunking with >= 2 chunks has a chunk boundary "
     "inside or at the edge of an occurrence of the prefix, the suffix or a stop sequence in the text (labels in "
     "observed.boundary_labels); distinct = (configuration, text, chunking set)"
 )
@@ -93,6 +94,17 @@ LONG_CONFIGS = [
     ('Bot: "', '">', ["XY"]),
 ]
 CTYPES = ("gen", "chat", "ai")
+_BM = ('Bot message: "', '"', ["\nUser intent: "])
+# texts and chunkings of the repository's own streaming tests (they pin the order of the oracle) + production shapes
+PINNED = [
+    (_BM, ["Bot", " message: ", '"', "This is a message", '"', "\n", "User ", "intent: ", "bla"]),
+    (_BM, ["Bot", " message: ", '"', "This is a message", '."']),
+    (_BM, ["Bot", " message: ", '"', "This is a message", '."\nUser', " intent: ", " xxx"]),
+    (('Bot message: "', '"', ['"\n']), ["Bot", " message: ", '"', "This is a message", '."\nUser', " intent: ", " xxx"]),
+    (("User intent: ", None, []), ["User", " ", "intent", ":", " ask question"]),
+    (('  "', '"', []), ['  "Hello ', "there! ", "How ", "are ", "you ", 'today?"']),
+    (('  "', '"', ['"\n']), ['  "Hi, how are you doing?"\nuser ask', " about", " x"]),
+]
 
 
 # ----------------------------------------------------------------- oracle
@@ -154,14 +166,20 @@ def cases(tier, seed):
     rng = random.Random(7700 + seed)
     nsamp = 1500 if tier == "quick" else 12000
     nrand = 40 if tier == "quick" else 200
+    for (p, s, stops), chunks in PINNED:
+        i += 1
+        yield {
+            "id": i, "prefix": p, "suffix": s, "stop": stops, "text": "".join(chunks), "mode": "rnd", "nrand": 5 * nrand,
+            "rseed": 18 + seed, "extra_chunkings": [chunks], "ctype": CTYPES[i % 3], "lead_empty": i % 2 == 0, "scope": "sampled",
+        }
     allcfg = LONG_CONFIGS + [(p, s, st) for (p, s, st, _a) in SHORT_CONFIGS if p or s or st]
     for k in range(nsamp):
         p, s, stops = allcfg[k % len(allcfg)]
         text = _random_text(rng, p, s, stops)
         i += 1
         yield {
-            "id": i, "prefix": p, "suffix": s, "stop": stops, "text": text, "mode": "rnd", "nrand": nrand,
-            "rseed": rng.randrange(1 << 30), "ctype": CTYPES[i % 3], "lead_empty": i % 5 == 0, "scope": "sampled",
+            "id": i, "prefix": p, "suffix": s, "stop": stops, "text": text, "mode": "exh" if len(text) <= maxn else "rnd",
+            "nrand": nrand, "rseed": rng.randrange(1 << 30), "ctype": CTYPES[i % 3], "lead_empty": i % 5 == 0, "scope": "sampled",
         }
 
 
@@ -199,6 +217,12 @@ def masks_of(case):
         return list(range(1 << (n - 1)))
     full = (1 << (n - 1)) - 1
     out = [0, full] + [1 << (k - 1) for k in range(1, n)]
+    for chunks in case.get("extra_chunkings", []):
+        m, k = 0, 0
+        for c in chunks[:-1]:
+            k += len(c)
+            m |= 1 << (k - 1)
+        out.append(m)
     rng = random.Random(case["rseed"])
     for _ in range(case["nrand"]):
         dens = rng.choice([0.08, 0.2, 0.35, 0.5, 0.7, 0.9])
@@ -423,6 +447,9 @@ def run_case(case):
         obs["prefix_absent_cases"] = 1
     obs["%s_scope_cases" % case.get("scope", "x")] = 1
     obs["%s_scope_chunkings" % case.get("scope", "x")] = len(masks)
+    if case["mode"] == "exh":
+        obs["cases_with_all_chunkings"] = 1
+        obs["max_text_len_with_all_chunkings"] = len(text)
     cfg = {"prefix": p, "suffix": s, "stop": stops}
     base = {
         "key": repr((p, s, stops, text, case["mode"], case.get("nrand"), case.get("rseed"))),
@@ -476,6 +503,6 @@ def classify(r):
 def finalize(tier, seed, observed, counts):
     n = observed.get("chunkings", 0)
     out = {"coverage": {"chunkings_total": n, "handler_runs_total": observed.get("runs", 0), "min_chunkings_required": MIN_CHUNKINGS[tier]}}
-    if n < MIN_CHUNKINGS[tier]:
+    if n < MIN_CHUNKINGS[tier] and counts.get("held", 0) + counts.get("violated", 0) >= MIN_HELD[tier]:
         out["inconclusive"] = "only %d chunkings executed (< %d)" % (n, MIN_CHUNKINGS[tier])
     return out
